@@ -255,6 +255,13 @@ def run(ctx, rep):
                   what="no iteration of the extend loop skips the total_size addition: every listed pack is counted" if not skip else
                        "some path round the extend loop skips `total_size += pack_size()`: packs taking that path are missing from the size totals")
         # the pack is also registered in its type's bucket on every iteration where that is possible (pack counts)
+    # the pack index stored in an entry is the position its pack gets in `packs`: len() is read BEFORE the push
+    lens = [(bb, t) for bb, t in EXT.calls() if "callee" in t and callee(t).endswith("Vec::<T, A>::len") and op_place(t["args"][0]) and "packs" in (flow.place_path(EXT, op_place(t["args"][0])) or (None, []))[1]]
+    pss = [(bb, t) for bb, t in EXT.calls() if "callee" in t and callee(t).endswith("Vec::<T, A>::push") and op_place(t["args"][0]) and "packs" in (flow.place_path(EXT, op_place(t["args"][0])) or (None, []))[1]]
+    backs_ = C.back_edges(EXT)
+    oki = len(lens) == 1 and len(pss) == 1 and pss[0][0] in EXT.reachable_from(lens[0][0], cut_edges=backs_) and lens[0][0] not in EXT.reachable_from(pss[0][0], cut_edges=backs_)
+    rep.check("C17.b", "pack-index-before-push", oki, where=EXT.loc(), what="an entry's pack_idx is packs.len() taken before the pack is pushed (it is the pack's own position)" if oki else
+              "pack_idx is not the position of the entry's pack (len() read after the push / not at all): lookups return another pack")
     # total_size(type) answers from the bucket of the requested type only
     TS = prog.bodies.get(f"<{BS}Index as rustic_core::index::ReadIndex>::total_size")
     if TS is not None:
